@@ -370,7 +370,13 @@ func genIssuer(t *rapid.T) Issuer {
 	if n.CN == "" {
 		n.CN = "CRL Issuer"
 	}
-	i := Issuer{Subject: n, Key: rapid.SampledFrom(keyPool).Draw(t, "ikey"), CRLSign: true, CanSign: true, SKID: genHex(1, 20).Draw(t, "iskid")}
+	i := Issuer{Subject: n, Key: rapid.SampledFrom(keyPool).Draw(t, "ikey"), CRLSign: true, CanSign: true, SKID: genHex(1, 20).Draw(t, "iskid"), By: []Name{}}
+	if rapid.IntRange(0, 2).Draw(t, "intermediate") == 0 {
+		// the signer is an intermediate / cross-signed CA: issued under another name
+		by := GenName().Draw(t, "by")
+		by.CN = "Issuer of " + n.CN
+		i.By = []Name{by}
+	}
 	return i
 }
 
